@@ -19,9 +19,10 @@ def k_neighbours_id_centre(ctx):
 
 def _world(shape):
     """a world built by the REAL constructor (so that whatever state __init__ sets up exists); only pandas is the
-    contract stand-in of vf.stubs"""
-    with patched_pandas():
-        return Env.DiscreteWorld(Model(logger=NULL_LOGGER), *shape)
+    contract stand-in of vf.stubs.  Callers keep `patched_pandas()` active for the whole path, so that module-level
+    memoisation is modelled during the queries as well."""
+    return Env.DiscreteWorld(Model(logger=NULL_LOGGER), *shape)
+
 
 
 def _ball(kind, shape, c, r, incl, as_id):
@@ -49,14 +50,22 @@ def _ball(kind, shape, c, r, incl, as_id):
 
 def x_neighbours(cx: int, cy: int, cz: int, r: int, incl: bool, as_id: bool) -> bool:
     """
-    pre: 0 <= r <= hx.P['R']
+    pre: hx.P.get('Rmin', 0) <= r <= hx.P['R']
     post: _
     """
     # fallback of the K obligations at small bounds: the real functions, path by path
     hx.begin()
+    with patched_pandas():
+        return _x_neighbours(cx, cy, cz, r, incl, as_id)
+
+
+def _x_neighbours(cx, cy, cz, r, incl, as_id):
     shape, kind = tuple(hx.P['shape']), hx.P['kind']
     w, h, d = shape
     if not (0 <= cx < max(w, 1) and 0 <= cy < max(h, 1) and 0 <= cz < max(d, 1)):
+        return hx.end(True)
+    lo, hi = hx.P.get('centre_box', (None, None))       # (large worlds: centres restricted to a concrete sub-box)
+    if lo is not None and not (lo <= cx <= hi and lo <= cy <= hi and lo <= cz <= hi):
         return hx.end(True)
     env = _world(shape)
     fn = env.get_moore_neighbours if kind == 'moore' else env.get_neumann_neighbours
@@ -69,6 +78,17 @@ def x_neighbours(cx: int, cy: int, cz: int, r: int, incl: bool, as_id: bool) -> 
     for a, b in zip(got, exp):
         if a != b:
             return hx.end(hx.fail("neighbour list", kind=kind, shape=shape, centre=(cx, cy, cz), r=r, got=got, exp=exp))
+    # the answer is the caller's own list: consuming it destructively must not change what the same question - asked
+    # again, or asked of another world of the same shape - returns
+    if hx.P.get('light'):
+        return hx.end(True)
+    del got[:]
+    again = fn((cx, cy, cz), r, incl, int if as_id else tuple)
+    twin = _world(shape)
+    other = (twin.get_moore_neighbours if kind == 'moore' else twin.get_neumann_neighbours)((cx, cy, cz), r, incl, int if as_id else tuple)
+    if list(again) != list(exp) or list(other) != list(exp):
+        return hx.end(hx.fail("same query answered differently after the first answer was consumed", kind=kind, shape=shape,
+                              centre=(cx, cy, cz), r=r, again=again, twin_world=other, exp=exp))
     return hx.end(True)
 
 
@@ -80,6 +100,11 @@ def x_component_centre(x1: int, y1: int, incl: bool, as_id: bool) -> bool:
     # a position component as centre, queried, then moved to another cell and queried again with the same object:
     # every answer is the ball around the cell the component denotes AT THAT MOMENT (fractional in-cell offsets)
     hx.begin()
+    with patched_pandas():
+        return _x_component_centre(x1, y1, incl, as_id)
+
+
+def _x_component_centre(x1, y1, incl, as_id):
     kind = hx.P['kind']
     shape = (4, 3, 0)
     env = _world(shape)
@@ -107,6 +132,40 @@ def x_component_centre(x1: int, y1: int, incl: bool, as_id: bool) -> bool:
     return hx.end(True)
 
 
+def x_two_worlds(cx: int, cy: int, cz: int, r: int, incl: bool, as_id: bool) -> bool:
+    """
+    pre: 0 <= r <= hx.P['R']
+    post: _
+    """
+    # several worlds of different shapes alive in one process: what one world was asked before must not influence what
+    # another one answers (same radius, same kind, same return form)
+    hx.begin()
+    with patched_pandas():
+        first, second, kind = tuple(hx.P['first']), tuple(hx.P['second']), hx.P['kind']
+        w, h, d = second
+        if not (0 <= cx < max(w, 1) and 0 <= cy < max(h, 1) and 0 <= cz < max(d, 1)):
+            return hx.end(True)
+        rt = int if as_id else tuple
+        a = _world(first)
+        fa = a.get_moore_neighbours if kind == 'moore' else a.get_neumann_neighbours
+        ga = fa((0, 0, 0), r, incl, rt)
+        if list(ga) != _ball(kind, first, (0, 0, 0), r, incl, as_id):
+            return hx.end(hx.fail("first world's answer", shape=first, r=r, got=ga))
+        b = _world(second)
+        fb = b.get_moore_neighbours if kind == 'moore' else b.get_neumann_neighbours
+        gb = fb((cx, cy, cz), r, incl, rt)
+        exp = _ball(kind, second, (cx, cy, cz), r, incl, as_id)
+        if len(exp) > 1:
+            hx.reach('nonempty')
+        if list(gb) != exp:
+            return hx.end(hx.fail("second world's answer after another world was asked the same question", kind=kind,
+                                  first_world=first, second_world=second, centre=(cx, cy, cz), r=r, got=gb, exp=exp))
+        # ... and the first world still answers for its own shape
+        if list(fa((0, 0, 0), r, incl, rt)) != _ball(kind, first, (0, 0, 0), r, incl, as_id):
+            return hx.end(hx.fail("first world's answer after the second world was asked", shape=first, r=r))
+        return hx.end(True)
+
+
 _BADTYPES = [list, str, float, None, bool]
 
 
@@ -118,6 +177,11 @@ def dispatch(cx: int, cy: int, r: int, incl: bool, as_id: bool, which: int) -> b
     post: _
     """
     hx.begin()
+    with patched_pandas():
+        return _dispatch(cx, cy, r, incl, as_id, which)
+
+
+def _dispatch(cx, cy, r, incl, as_id, which):
     env = _world((3, 2, 0))
     rt = int if as_id else tuple
     c = (cx, cy, 0)
@@ -182,8 +246,16 @@ def obligations(tier):
         K("neighbours", k_neighbours, parts=parts, timeout=600, encoded=enc[:4]),
         K("neighbours_id_centre", k_neighbours_id_centre,
           parts=[{"kind": k, "N": NI, "ret": rt} for k in ("moore", "neumann") for rt in ("tuple", "int")], timeout=300, encoded=enc[:4]),
-        X("x_neighbours", x_neighbours, parts=[{"shape": list(s), "kind": k, "R": 1 if tier == "quick" else 2} for s in shapes for k in ("moore", "neumann")],
-          labels=("nonempty",), timeout=900, group=1, encoded=enc[:2]),
+        X("x_neighbours", x_neighbours, parts=[{"shape": list(s), "kind": k, "R": 1 if tier == "quick" else 2} for s in shapes for k in ("moore", "neumann")] +
+          # one large world: windows of several hundred cells (a query over 9x9x9 cells clipped to 8x8x8)
+          [{"shape": [8, 8, 8], "kind": k, "R": 4, "Rmin": 4, "centre_box": [3, 4], "light": True} for k in (("moore",) if tier == "quick" else ("moore", "neumann"))],
+          labels=("nonempty",), timeout=900, group=1, encoded=enc[:2],
+          bounds={"small worlds": "every centre, radius <= %d" % (1 if tier == "quick" else 2), "large world": "8x8x8, radius 4, centres 3..4 per axis"}),
+        X("x_two_worlds", x_two_worlds,
+          parts=[{"first": f, "second": sd, "kind": k, "R": 1 if tier == "quick" else 2} for k in ("moore", "neumann")
+                 for f, sd in (([4, 0, 0], [3, 3, 0]), ([0, 0, 3], [2, 2, 2]), ([3, 2, 0], [3, 0, 2]))],
+          labels=("nonempty",), timeout=900, group=1, encoded=enc[:2],
+          bounds={"worlds": "3 pairs of shapes with different axes in use", "radius": "<= %d" % (1 if tier == "quick" else 2)}),
         X("x_component_centre", x_component_centre,
           parts=[{"kind": k, "frac": f, "start": st, "r": rr} for k in ("moore", "neumann")
                  for f, st, rr in (([0.0, 0.0], [1, 1], 1), ([0.5, 0.25], [3, 2], 1), ([0.99, 0.01], [0, 0], 2 if tier != "quick" else 0))],
